@@ -1,9 +1,69 @@
-//! C05 sessions (seeded driver). Fill in.
+//! C05 sessions: PlainDateTime add/subtract (exact time carry + date part), until/since with every largest unit
+//! (pairs whose time-of-day order is opposite to their date order over-sampled), round near midnight.
 use super::Tracer;
 use crate::gen::*;
 use crate::rng::Rng;
-use serde_json::json;
+use serde_json::{json, Value};
+
+fn dt_json(day: i64, tns: i128) -> Value {
+    let (y, m, d) = civil(day);
+    let t = time_json(tns);
+    json!({"y": y, "m": m, "d": d, "h": t["h"], "mi": t["mi"], "s": t["s"], "ms": t["ms"], "us": t["us"], "ns": t["ns"]})
+}
+fn rand_tns(r: &mut Rng) -> i128 {
+    match r.range(0, 6) { 0 => 0, 1 => 1, 2 => DAY_NS - 1, 3 => DAY_NS / 2, 4 => DAY_NS - 1 - r.range(0, 2_000_000_000) as i128, _ => r.range128(0, DAY_NS - 1) }
+}
+fn in_range(day: i64, tns: i128) -> bool { (day > MIN_DAY || (day == MIN_DAY && tns > 0)) && day <= MAX_DAY }
+fn val_dt(v: &Value) -> Option<(i64, i128)> {
+    let g = |k: &str| v[k].as_i64();
+    let day = days_from_civil(g("y")?, g("m")?, g("d")?);
+    Some((day, (((g("h")? * 60 + g("mi")?) * 60 + g("s")?) as i128) * 1_000_000_000 + ((g("ms")? * 1000 + g("us")?) * 1000 + g("ns")?) as i128))
+}
+const UNITS10: [&str; 10] = ["nanosecond", "microsecond", "millisecond", "second", "minute", "hour", "day", "week", "month", "year"];
 
 pub fn drive(t: &mut Tracer, r: &mut Rng, n: usize) {
-    let _ = (t, r, n);
+    while t.n < n {
+        let (mut day, mut tns) = (any_day(r), rand_tns(r));
+        if !in_range(day, tns) { tns = 1; }
+        for _ in 0..r.range(3, 12) {
+            let recv = dt_json(day, tns);
+            match r.range(0, 9) {
+                0..=3 => {
+                    let sg: i128 = if r.chance(1, 2) { 1 } else { -1 };
+                    let m = |r: &mut Rng, small: i64, big_: i64| -> i128 { (match r.range(0, 9) { 0..=4 => 0, 5..=7 => r.range(0, small), _ => r.range(0, big_) }) as i128 };
+                    let huge_t = r.chance(1, 12);
+                    let dur = dur10(sg * m(r, 3, 400_000), sg * m(r, 30, 5_000_000), sg * m(r, 8, 20_000_000), sg * m(r, 70, 150_000_000),
+                        sg * (if huge_t { exact_f64_int(r, 1 << 40) } else { m(r, 100, 3_000_000) }), sg * m(r, 200, 2_000_000_000), sg * m(r, 100_000, 2_000_000_000),
+                        sg * m(r, 1000, 2_000_000_000), sg * m(r, 1000, 2_000_000_000), sg * (if huge_t { exact_f64_int(r, 1 << 80) } else { m(r, 2_000_000_000, 2_000_000_000) }));
+                    let op = if r.chance(1, 2) { "PlainDateTime.add" } else { "PlainDateTime.subtract" };
+                    let mut args = json!({"recv": recv, "dur": dur});
+                    if r.chance(2, 3) { args["ovf"] = json!(if r.chance(1, 2) { "constrain" } else { "reject" }); }
+                    let out = t.call(op, args);
+                    if out["kind"] == "ok" { match val_dt(&out["val"]) { Some((d2, t2)) if in_range(d2, t2) && (0..DAY_NS).contains(&t2) => { day = d2; tns = t2; } _ => break } }
+                }
+                4..=7 => {
+                    // other date-time: near or far; half of the time with the time-of-day order opposite to the date order
+                    let od = match r.range(0, 4) { 0 => day + r.range(-2, 2), 1 => day + r.range(-40, 40), 2 => day + r.range(-800, 800), _ => any_day(r) }.clamp(MIN_DAY, MAX_DAY);
+                    let mut ot = rand_tns(r);
+                    if r.chance(1, 2) { if od > day && ot > tns { ot = r.range128(0, tns) } else if od < day && ot < tns { ot = r.range128(tns, DAY_NS - 1) } }
+                    if !in_range(od, ot) { ot = 1; }
+                    let op = if r.chance(1, 2) { "PlainDateTime.until" } else { "PlainDateTime.since" };
+                    let st = if r.chance(1, 8) { json!({}) } else { json!({"largest": *r.pick(&UNITS10)}) };
+                    t.call(op, json!({"recv": recv, "other": dt_json(od, ot), "st": st}));
+                }
+                _ => {
+                    let u = *r.pick(&["day", "hour", "minute", "second", "millisecond", "microsecond", "nanosecond"]);
+                    let inc = if u == "day" { 1 } else { *r.pick(&time_incs(u)) };
+                    // move the time within one increment of midnight / of a multiple
+                    let nn = inc as i128 * unit_ns(u);
+                    let q = if r.chance(1, 2) { DAY_NS / nn - 1 } else { r.range128(0, DAY_NS / nn - 1) };
+                    let t2 = (q * nn + tie_biased_rem(r, nn)).clamp(0, DAY_NS - 1);
+                    let (d2, t2) = if in_range(day, t2) { (day, t2) } else { (day, tns) };
+                    let out = t.call("PlainDateTime.round", json!({"recv": dt_json(d2, t2), "st": {"smallest": u, "inc": inc, "mode": *r.pick(&MODES)}}));
+                    let _ = out; break; // (the receiver was re-positioned: end the session here)
+                }
+            }
+        }
+        t.reset();
+    }
 }
